@@ -88,6 +88,8 @@ def to_real(world: World, d):
         return {world.obj(i) for i in d["members"]}
     if kind == "node":
         return world.obj(d["index"])
+    if kind == "nodemap":
+        return {world.obj(int(i)): {world.obj(j) for j in js} for i, js in d["map"].items()}
     if kind == "seq":
         return [world.obj(i) for i in d["items"]]
     if kind == "pairs":
@@ -117,6 +119,8 @@ def describe(world: World, d):
         return sorted(nm(i) for i in d["members"])
     if kind == "node":
         return nm(d["index"])
+    if kind == "nodemap":
+        return {nm(int(i)): sorted(nm(j) for j in js) for i, js in d["map"].items()}
     if kind == "seq":
         return [nm(i) for i in d["items"]]
     if kind == "pairs":
@@ -168,6 +172,11 @@ def pin_inputs(L: Logic, probes, data, world: World):
             hyps += _tab1(L, p.syms[0], set(d["members"]))
         elif p.kind == "node":
             hyps.append(p.syms[0] == U[d["index"]])
+        elif p.kind == "nodemap":
+            Dm, Sg = p.syms
+            mp_ = {int(i): js for i, js in d["map"].items()}
+            hyps += _tab1(L, Dm, set(mp_))
+            hyps += _tab2(L, Sg, [(i, j) for i, js in mp_.items() for j in js])
         elif p.kind == "seq":
             M, lt = p.syms
             items = d["items"]
@@ -247,6 +256,11 @@ def from_real(L: Logic, world: World, r, shape=None):
             v = getattr(r, f.name)
             fields[f.name] = from_real(L, world, v, VSeq(None, None) if isinstance(v, tuple) else None)
         return VObj(cls, fields, owned=True)
+    if isinstance(r, dict):
+        from .values import VDict
+        mp_ = {ix(k): {ix(x) for x in v} for k, v in r.items()}
+        U = L.universe
+        return VDict(_pred1(L, set(mp_)), lambda t: VSet(lambda x: L.Or(*[L.And(t == U[i], x == U[j]) for i, js in mp_.items() for j in js]), owned=False))
     if isinstance(r, (set, frozenset)) and r and all(isinstance(e, (set, frozenset)) for e in r):
         sets = [sorted(ix(e) for e in s) for s in r]
         return _family(L, sets)
